@@ -17,6 +17,7 @@ import (
 
 	"kvharness/internal/drv"
 	"kvharness/internal/gen"
+	"kvharness/internal/gentab"
 	"kvharness/internal/mut"
 	"kvharness/internal/render"
 	"kvharness/internal/tlsm"
@@ -427,12 +428,105 @@ func endToEnd(r *Result, ca *tlsm.CA) {
 		rq := item.RequestPayload.(kmip.GetRequest)
 		return kmip.GetResponse{ObjectType: kmip.OBJECT_TYPE_SYMMETRIC_KEY, UniqueIdentifier: rq.UniqueIdentifier + "-answer"}, nil
 	})
+	// every operation the package has a request and a response payload type for: the handler returns a generated response of
+	// that type and keeps what it received
+	type opCase struct {
+		op         kmip.Enum
+		name       string
+		req, resp  interface{}
+		respT      reflect.Type
+		received   interface{}
+		handlerRan int
+	}
+	var opCases []*opCase
+	{
+		ops := map[string]kmip.Enum{}
+		for _, c := range gentab.Consts {
+			if strings.HasPrefix(c.Name, "OPERATION_") && c.Typ == "Enum" {
+				ops[strings.ToLower(strings.ReplaceAll(strings.TrimPrefix(c.Name, "OPERATION_"), "_", ""))] = kmip.Enum(c.Num)
+			}
+		}
+		types := gen.StructTypes()
+		g := gen.New(777)
+		g.WF = true
+		for _, tn := range typeNames(types) {
+			if !strings.HasSuffix(tn, "Request") || tn == "Request" {
+				continue
+			}
+			base := strings.TrimSuffix(tn, "Request")
+			op, ok := ops[strings.ToLower(base)]
+			rt, ok2 := types[base+"Response"]
+			if !ok || !ok2 || op == kmip.OPERATION_GET || op == kmip.OPERATION_DISCOVER_VERSIONS {
+				continue
+			}
+			oc := &opCase{op: op, name: base, req: g.NewStruct(types[tn]).Elem().Interface(), resp: g.NewStruct(rt).Elem().Interface(), respT: rt}
+			opCases = append(opCases, oc)
+			s.Handle(op, func(ctx *kmip.RequestContext, item *kmip.RequestBatchItem) (interface{}, error) {
+				mu.Lock()
+				oc.received = item.RequestPayload
+				oc.handlerRan++
+				mu.Unlock()
+				return oc.resp, nil
+			})
+		}
+	}
 	init := make(chan struct{})
 	done := make(chan error, 1)
 	go func() { done <- s.Serve(ln, init) }()
 	<-init
 	ccfg := &tls.Config{RootCAs: ca.Pool, Certificates: []tls.Certificate{tlsm.Leaf(ca, tlsm.LeafOpts{Host: "client"})}}
 	kmip.DefaultClientTLSConfig(ccfg)
+	if cl := (&kmip.Client{Endpoint: ln.Addr().String(), TLSConfig: ccfg, ReadTimeout: 3 * time.Second, WriteTimeout: 3 * time.Second}); cl.Connect() == nil {
+		encIn := func(op kmip.Enum, payload interface{}, request bool) string {
+			var b bytes.Buffer
+			var err error
+			if request {
+				err = kmip.NewEncoder(&b).Encode(&kmip.Request{Header: kmip.RequestHeader{BatchCount: 1}, BatchItems: []kmip.RequestBatchItem{{Operation: op, RequestPayload: payload}}})
+			} else {
+				err = kmip.NewEncoder(&b).Encode(&kmip.Response{Header: kmip.ResponseHeader{BatchCount: 1}, BatchItems: []kmip.ResponseBatchItem{{Operation: op, ResponsePayload: payload}}})
+			}
+			if err != nil {
+				return "unencodable: " + err.Error()
+			}
+			return hx(b.Bytes())
+		}
+		for _, oc := range opCases {
+			key := fmt.Sprintf("end-to-end %s: Send(%d, %sRequest), handler returns a %sResponse", oc.name, uint32(oc.op), oc.name, oc.name)
+			r.eval(key, true)
+			if strings.HasPrefix(encIn(oc.op, oc.req, true), "unencodable") || strings.HasPrefix(encIn(oc.op, oc.resp, false), "unencodable") {
+				continue
+			}
+			resp, err := cl.Send(oc.op, oc.req)
+			mu.Lock()
+			received, ran := oc.received, oc.handlerRan
+			mu.Unlock()
+			r.Stats["end-to-end-operations"]++
+			switch {
+			case err != nil:
+				if ran == 0 {
+					r.Stats["end-to-end-operations:request-not-decodable-by-server"]++
+					r.Stats["end-to-end-operations:request-not-decodable-by-server:"+oc.name]++
+					// an operation without a dispatch entry on the receiving side: the Server refuses the request; reconnect
+					cl.Close()
+					if cl.Connect() != nil {
+						r.find(Finding{Kind: "disagreement", What: "end to end: cannot reconnect", Input: key})
+						return
+					}
+					continue
+				}
+				r.find(Finding{Kind: "violation", What: "end to end: the handler ran and returned a payload, Send returned an error", Input: key, Expect: render.Top(oc.resp), Actual: err.Error()})
+				cl.Close()
+				if cl.Connect() != nil {
+					return
+				}
+			case reflect.TypeOf(resp) != oc.respT || encIn(oc.op, resp, false) != encIn(oc.op, oc.resp, false):
+				r.find(Finding{Kind: "violation", What: "end to end: the payload returned is not what the handler returned", Input: key, Expect: fmt.Sprintf("%T %s", oc.resp, render.Top(oc.resp)), Actual: fmt.Sprintf("%T %s", resp, render.Top(resp))})
+			case reflect.TypeOf(received) != reflect.TypeOf(oc.req) || encIn(oc.op, received, true) != encIn(oc.op, oc.req, true):
+				r.find(Finding{Kind: "violation", What: "end to end: the handler did not receive what was sent", Input: key, Expect: fmt.Sprintf("%T %s", oc.req, render.Top(oc.req)), Actual: fmt.Sprintf("%T %s", received, render.Top(received))})
+			}
+		}
+		cl.Close()
+	}
 	// every way the Client's two timeouts can be configured - "zero: not enforced" - and, for the short ones, with pauses
 	// between the requests longer than the timeout: the exchange is the same
 	const T = 200 * time.Millisecond
